@@ -20,12 +20,14 @@
    NOT PROVED (name kept with _partial where a fragment is stated): exactness on a complete manifold — a statement of
    analysis about the matrix exponential, of which the model has no definition (the local exponentials are oracles);
    reversibility at the level of the dense state (needs gauge covariance of every local flow under the unitary bond gauges
-   introduced by the intermediate QR / orthonormalize calls).  Both are searched by prop() against scipy.linalg.expm. *)
+   introduced by the intermediate QR / orthonormalize calls).  Both are searched by prop() against scipy.linalg.expm.
+   UPDATE: the reversibility clause IS now proved, relative to explicit contracts, for every L and every number of steps --
+   see the section REVERSIBILITY AT THE LEVEL OF THE DENSE STATE at the end of this file (C09_reversible). *)
 From Coq Require Import ZArith QArith Qcanon List Bool Lia.
 From PT Require Import Base.Scalar Base.Field Base.BigSum Base.Mx Model.Tensor Model.Operation Model.Sweeps
   Proofs.SweepsSched Proofs.SweepsFlow Proofs.SweepsCheck Proofs.SweepsExample
   Proofs.OperationEntries Proofs.SweepsCanon Proofs.ReverseDefs Proofs.ReverseGauge Proofs.ReverseQR Proofs.ReverseFwd Proofs.ReversePair
-  Proofs.ReverseL1 Proofs.ReverseTop.
+  Proofs.ReverseL1 Proofs.ReverseLocal Proofs.ReverseTop Proofs.ReverseExample.
 Import ListNotations.
 
 Theorem C09_tdvp1_schedule_palindrome : forall L, rev (sched1 L) = sched1 L.
@@ -141,21 +143,23 @@ Theorem C09_reversible_L1 : forall (R : cring) orth qr (kexp : kexp_t R) (kexp0 
 Proof. exact reversible_L1. Qed.
 Print Assumptions C09_reversible_L1.
 
-(* the environment updates are covariant under unitary bond gauges, over any cring *)
-Theorem C09_env_steps_gauge_covariant : forall (R : cring) d Dl Dr Dwl Dwr (A : site R) (W : osite R) (Gl Gr : mx R),
-  (0 < d)%nat -> wsite d Dl Dr A -> osite_ok d Dwl Dwr W ->
-  (forall E, (0 < Dwl)%nat -> wenv Dwl Dl Dl E -> unitary Dl Gl -> wmx Dr Dr Gr ->
-     contraction_operator_step_left (gsite Gl Gr A) (gsite Gl Gr A) W (genvL Gl E) =
-     genvL Gr (contraction_operator_step_left A A W E)) /\
-  (forall E, (0 < Dwr)%nat -> wenv Dwr Dr Dr E -> unitary Dr Gr -> wmx Dl Dl Gl ->
+(* target of contract (b): all four local functions of Model/Operation.v are covariant under unitary bond gauges, over any
+   cring -- the two environment updates (used by the proof below), apply_local_hamiltonian and apply_local_bond_contraction
+   (so that exp(t * H_eff) and every solver that is a polynomial / unitarily covariant function of H_eff meets (b)) *)
+Theorem C09_local_problem_gauge_covariant : forall (R : cring) d Dl Dr Dwl Dwr (A : site R) (W : osite R) (Gl Gr : mx R),
+  (0 < d)%nat -> (0 < Dwl)%nat -> (0 < Dwr)%nat -> wsite d Dl Dr A -> osite_ok d Dwl Dwr W -> unitary Dl Gl -> unitary Dr Gr ->
+  (forall L, wenv Dwl Dl Dl L ->
+     contraction_operator_step_left (gsite Gl Gr A) (gsite Gl Gr A) W (genvL Gl L) =
+     genvL Gr (contraction_operator_step_left A A W L)) /\
+  (forall E, wenv Dwr Dr Dr E ->
      contraction_operator_step_right (gsite Gl Gr A) (gsite Gl Gr A) W (genvR Gr E) =
-     genvR Gl (contraction_operator_step_right A A W E)).
-Proof.
-  intros R d Dl Dr Dwl Dwr A W Gl Gr Hd HA HW. split; intros E Hw HE HU HG.
-  - exact (opstep_left_gauge R d Dl Dr Dwl Dwr A W E Gl Gr Hd Hw HA HW HE HU HG).
-  - exact (opstep_right_gauge R d Dl Dr Dwl Dwr A W E Gl Gr Hd Hw HA HW HE HU HG).
-Qed.
-Print Assumptions C09_env_steps_gauge_covariant.
+     genvR Gl (contraction_operator_step_right A A W E)) /\
+  (forall L E, wenv Dwl Dl Dl L -> wenv Dwr Dr Dr E ->
+     apply_local_hamiltonian (genvL Gl L) (genvR Gr E) W (gsite Gl Gr A) = gsite Gl Gr (apply_local_hamiltonian L E W A)) /\
+  (forall L E C, wenv Dwl Dl Dl L -> wenv Dwl Dr Dr E -> wmx Dl Dr C ->
+     apply_local_bond_contraction (genvL Gl L) (genvR Gr E) (gmx Gl Gr C) = gmx Gl Gr (apply_local_bond_contraction L E C)).
+Proof. exact local_problem_gauge_covariant. Qed.
+Print Assumptions C09_local_problem_gauge_covariant.
 
 (* contract (c) is a theorem once R is invertible: two factorisations (isometry) x (invertible) of the same tensor differ by a unitary *)
 Theorem C09_qr_gauge_unique : forall (R : cring) d Dl k (C T0 : mx R) (Aq B0 : site R), (0 < d)%nat ->
@@ -198,3 +202,21 @@ Theorem C09_reversible : forall (R : cring) orth qr (kexp : kexp_t R) (kexp0 : k
   forall w, In w (words d L) -> amp (m_A (fst (orth psi))) w = kmul R nrm2 (amp A2 w).
 Proof. exact tdvp1_reversible. Qed.
 Print Assumptions C09_reversible.
+
+(* ---------------- non-vacuity of C09_reversible ----------------
+   Proofs/ReverseExample.v: L = 2, d = 2, bond dimension 2, rational entries, 2 steps with dt = 1/3 and 2 steps with -1/3;
+   local solver kexp(t) A = A + t * (sigma^+ on the physical leg) A  (an exact flow, NOT the identity; contracts (a), (b)
+   proved for all arguments), QR oracle Q = 1, R = the matrix (per-call contracts evaluated by the kernel on both recorded
+   traces), orth oracle = division of the first tensor by 2 with reported norm 2.  Every hypothesis of C09_reversible is
+   discharged, so its conclusion holds for the instance: *)
+Example C09_reversible_nonvacuous :
+  rn x_run2 = snd (x_orth x_psi1) /\
+  forall w, In w (words 2 2) -> amp (m_A (fst (x_orth xPsi))) w = kmul Qcring (rn x_run2) (amp (rA x_run2) w).
+Proof. exact x_reversible. Qed.
+(* ... the state after the first call differs from the start, the kernel computes the same conclusion, the reported norm is 2,
+   and 18 calls were traced in the first run *)
+Example C09_reversible_nontrivial :
+  negb (list_eqb (keqb Qcring) (amps (rA x_run1)) (amps (m_A (fst (x_orth xPsi))))) &&
+  list_eqb (keqb Qcring) (amps (m_A (fst (x_orth xPsi)))) (map (kmul Qcring (rn x_run2)) (amps (rA x_run2))) &&
+  keqb Qcring (rn x_run2) (xq 2 1) && Nat.eqb (length (rt x_run1)) 18 = true.
+Proof. exact x_nontrivial. Qed.
